@@ -126,6 +126,14 @@ class Decoder:
                     if d.get("k") != "nil":
                         props[p] = d
             return {"k": "schema", "cls": cname, "props": props}
+        if cname.endswith("Props") and cname in self.ct.ids and self.ct.is_sub(cname, "Props"):
+            reg = M.attr("_registry")(v)
+            n = max(0, min(self._int(M.klen(reg)), self.max_len))
+            items = []
+            for i in range(n):
+                k = M.kat(reg, i)
+                items.append([self.decode(k, depth + 1), self.decode(M.dget(reg, k), depth + 1)])
+            return {"k": "props", "cls": cname, "items": items}
         if cname.endswith("ValidationError") and cname in ERR_ATTRS:
             return {"k": "error", "cls": cname,
                     "attrs": {a: self.decode(M.attr(a)(v), depth + 1) for a in ["path", "actual_value"] + ERR_ATTRS[cname]}}
